@@ -403,3 +403,11 @@ package proto
 //@   requires w != nil && wRI(w) && w.conn != nil
 //@   modifies w.bufOffset, w.needCut, w.vec, w.buf.Buf, contents(w.vec), all(w.conn)
 //@   ensures w.bufOffset == 0 && len(w.vec) == 0 && len(w.buf.Buf) == 0 {reset-always}
+
+// ---------------------------------------------------------------------------
+// C13/C17: the only use of a revision is a threshold comparison
+
+//@ contract (f Feature) In(v) (r) props(C13,C17)
+//@   ensures r == (v >= f)
+//@ contract (f Feature) Version() (r) props(C13,C17)
+//@   ensures r == f
